@@ -1,15 +1,16 @@
 ---- MODULE MC_Compare ----
 EXTENDS Compare
 \* 0, a value below the printing resolution (4*10^-6), 1/2, 1, 3, a negative value
-VQuick == {<<0, 1>>, <<1, 250000>>, <<1, 1>>, <<3, 1>>, <<-2, 1>>}
-\* + 1/2, values whose differences fall between "prints as zero" and the colouring threshold (7*10^-6, 7*10^-5 relative),
+VQuick == {<<0, 1>>, <<1, 250000>>, <<1, 2>>, <<1, 1>>, <<3, 1>>, <<-2, 1>>}
+\* + values whose differences fall between "prints as zero" and the colouring threshold (7*10^-6, 7*10^-5 relative),
 \*   a second negative value and a large one
-VThorough == VQuick \cup {<<1, 2>>, <<1000007, 1000000>>, <<100007, 100000>>, <<-1, 2>>, <<10, 1>>}
+VThorough == VQuick \cup {<<1000007, 1000000>>, <<100007, 100000>>, <<-1, 2>>, <<10, 1>>}
 Var(eb, ec, shift, proc) == [eb |-> eb, ec |-> ec, shift |-> shift, proc |-> proc]
 VarQuick == {Var({1, 2}, {1, 2}, 0, TRUE), Var({1, 2}, {1, 2}, 1, FALSE),
              Var({1, 2}, {2}, 1, TRUE), Var({1}, {1, 2}, 0, FALSE),
              Var({1}, {2}, 0, TRUE), Var({}, {1}, 1, TRUE)}
-VarThorough == {Var(eb, ec, sh, pr) : eb \in SUBSET {1, 2}, ec \in SUBSET {1, 2}, sh \in {0, 1}, pr \in BOOLEAN}
+\* all ordered pairs are enumerated, so shift = 1 adds nothing once every entity combination is there
+VarThorough == {Var(eb, ec, 0, Cardinality(eb) + Cardinality(ec) # 3) : eb \in SUBSET {1, 2}, ec \in SUBSET {1, 2}}
 \* the slot table, printed once for the harness (binding of slots to race.json fields and row labels)
 ASSUME PrintT(<<"SLOTS", SlotSeq>>)
 \* the direction flag the transcription passes for every row kind is the statement's direction
